@@ -40,7 +40,7 @@ func runC04(k int, rng *Rng) CaseResult {
 	clockNewCase(clockModeFor(cfg))
 	installHooks(stdHooks())
 	w := NewWorld("C04", rng, cfg, caseDir(k, "c04"))
-	w.predict, w.storeWant = true, true
+	w.predict, w.storeWant = true, false
 	defer w.Cleanup()
 	if !w.OpenCreate() {
 		return w.finish(nil, false, nil)
